@@ -366,6 +366,18 @@ def run(ctx):
             r11.check(bool(T11) and w11 is None, "copy-end-reply-awaited-only-in-copy-mode#%d" % (k_ + 1), "the read at client.rs:%s is reached only where in_copy_mode() was true" % c.span.split(":")[1],
                       "a CopyDone / CopyFail from a client that has no COPY open is forwarded and its (never coming) reply awaited at client.rs:%s" % c.span.split(":")[1], c.where(), w11 and hh.describe_path(w11))
 
+    # ---------------- R12 a cancel key is good for the holder's own statements only (round 6)
+    r12 = ctx.rule("C11-R12", "a CancelRequest is accepted before any authentication, from anybody who knows a key: a client's key must stop pointing at a server connection the moment the client gives that connection back - "
+                   "Client::release removes the cancel-map entry on every path (the check-in calls it), otherwise an idle client can cancel whatever another client runs on the connection it used last", floor=1)
+    rl12 = ctx.body("pgcat::client::Client::release", r12)
+    if rl12:
+        rm12 = [c.block for c in rl12.calls("re:^std::collections::hash::map::HashMap::.*remove$")]
+        rets12 = [bb for bb, blk in enumerate(rl12.blocks) if blk["term"]["k"] == "return"]
+        w12 = rl12.uncrossed_path([0], rets12, blocks=rm12) if rm12 else [0]
+        r12.check(bool(rm12) and w12 is None, "release-removes-the-key", "Client::release() removes the client's entry from the cancel map on every path",
+                  "Client::release() can return without removing the entry (a condition guards the removal): after its transaction the client's key still maps to the server connection it used; "
+                  "a CancelRequest with that key - 16 bytes on a fresh connection - cancels the statement another client is running there", "", w12 and rl12.describe_path(w12))
+
     # ---------------- inventory (informational)
     # ---------------- R10 what one client puts into the pool-wide statement cache is not served to another
     r10 = ctx.rule("C11-R10", "a Parse that enters the pool-wide prepared-statement cache is handed to other clients only for byte-identical statements: every field of Parse that the encoder writes to the server "
